@@ -4,7 +4,7 @@ HOOKS = {
     "guard": "JTIOSUE_QUBOVERT_VERIF",
     "enable": "./check exports JTIOSUE_QUBOVERT_VERIF=1 (read once at import of qubovert._pubo) and imports an overlay copy of /repo/qubovert rebuilt under /verif/.build/ on every run; the hook records a degree-reduction certificate used by C01 (sub-check cert)",
     "baseline_off_cmd": "/verif/tools/baseline.sh",
-    "source_commits": ["74aaf19"],
+    "source_commits": ["6afc3db"],
     "add_only": True,
 }
 ENGINES = [
